@@ -258,7 +258,34 @@ def rule_edge_keys(ctx: Ctx) -> None:
                  func="CircuitDAG._add_edge", construct="_add_edge: edge_dict entry")
 
 
+def rule_reach_whole_dag(ctx: Ctx) -> None:
+    """reach.whole-dag: find_incompatible_edges decides which edge pairs may receive a two-qubit operation without closing a cycle;
+    the ancestor / descendant sets it uses must be those of the whole DAG (`self.dag`): a view that drops some edges (the classical
+    wires, say) misses orderings that run through them, and the pair it then reports compatible closes a cycle."""
+    repo = ctx.repo
+    m = repo.module(DAG)
+    fn = repo.anchor(DAG, "CircuitDAG.find_incompatible_edges")
+    ctx.touch(m, fn)
+    cs = [c for c in calls_in(fn) if call_name(c) in ("nx.ancestors", "nx.descendants")]
+    kinds = {call_name(c) for c in cs}
+    if kinds != {"nx.ancestors", "nx.descendants"}:
+        ctx.fail("reach.whole-dag", m, fn, "find_incompatible_edges no longer computes both nx.ancestors and nx.descendants of the chosen edge's end nodes",
+                 func="CircuitDAG.find_incompatible_edges", construct="find_incompatible_edges: reachability sets")
+        return
+    for c in cs:
+        g = norm(c.args[0]) if c.args else "?"
+        if g == "self.dag":
+            ctx.ok("reach.whole-dag", m, c, what=f"{call_name(c)} over the whole DAG")
+        else:
+            ctx.fail("reach.whole-dag", m, c,
+                     f"find_incompatible_edges computes `{short(c)}` on `{g}` instead of the whole DAG `self.dag`: two operations ordered only through "
+                     f"an edge that `{g}` leaves out (a shared classical register) are treated as unordered, so a two-qubit operation inserted on a "
+                     f"pair reported compatible closes a cycle", func="CircuitDAG.find_incompatible_edges",
+                     construct="find_incompatible_edges: reachability on a partial graph")
+
+
 def run(ctx: Ctx) -> None:
+    rule_reach_whole_dag(ctx)
     from ..rules import memo as _memo
     _memo.rule_memo_sound(ctx, ['graphiq/circuit/circuit_dag.py', 'graphiq/circuit/circuit_base.py'])
     rule_own_dag(ctx)
@@ -274,6 +301,7 @@ def run(ctx: Ctx) -> None:
 
 
 KNOCKOUTS = [
+    Knockout("reach-partial-graph", DAG, sub_once("        ancestors = nx.ancestors(self.dag, first_edge[0])", "        ancestors = nx.ancestors(self.dag.subgraph([n for n in self.dag if not str(n).startswith('c')]), first_edge[0])"), "reach.whole-dag", "partial graph"),
     Knockout("wrapper-live-iteration", DAG, sub_once('wrapper_list = self.node_dict["OneQubitGateWrapper"].copy()', 'wrapper_list = self.node_dict["OneQubitGateWrapper"]'), "iter.snapshot", "iterated element"),
     Knockout("C1-drop-edge-dict-remove", DAG, sub_once("        self._edge_dict_remove(reg_type, edge_to_remove)\n        self.dag.remove_edges_from", "        self.dag.remove_edges_from"),
              "own.dag", "_remove_edge"),
